@@ -782,7 +782,38 @@ class Interp:
                     return self.eval_const_body(st, cb, cb, frame.genv, frame.depth + 1)
                 except InterpError:
                     return Opaque(ty, 'const')
+        if isinstance(val, dict) and 'too_generic' in val and frame.genv:
+            # associated constant of a TRAIT used under a type parameter (`C::TABLE` in `fn f<C: Trait>()`): the frame knows
+            # what C was instantiated with, the impl's constant is in the facts under `<S as Trait>::NAME`
+            import re as _re
+            mm = _re.search(r'args: \[(\w+)/#\d+', val['too_generic'])
+            trait, _, cname = (c.get('name') or '').rpartition('::')
+            bound = frame.genv.get(mm.group(1)) if mm else None
+            if isinstance(bound, dict) and trait:
+                sname = bound.get('s') or bound.get('n')
+                ck = self.facts.consts.get('<%s as %s>::%s' % (sname, trait, cname))
+                if ck is not None and ck.get('val') is not None:
+                    return self.json_const(st, ck['val'], ck.get('ty', ty), ck.get('path'))
         return self.json_const(st, val, ty, c.get('name'))
+
+    def table_named_like(self, arr):
+        """a constant array whose content equals one of the crate's named lookup tables IS that table for the rules (a
+        reference to the table stored in an associated constant, a re-export, ...)"""
+        try:
+            vals = []
+            for e in arr:
+                if 'float_bits' in e:
+                    vals.append(float_const(int(e['float_bits']), e.get('w', 32)).const_value())
+                elif 'int' in e:
+                    vals.append(Fr(int(e['int'])))
+                else:
+                    return None
+        except Exception:
+            return None
+        for name, tb in self.facts.tables.items():
+            if len(tb) == len(vals) and all(a == b for a, b in zip(tb, vals)):
+                return name
+        return None
 
     def json_const(self, st, val, ty, name=None):
         k = ty['k']
@@ -837,6 +868,10 @@ class Interp:
             names = [f['name'] for f in adt['variants'][0]['fields']] if adt else [str(i) for i in range(len(val['fields']))]
             ftys = [f['ty'] for f in adt['variants'][0]['fields']] if adt else [{'k': 'other'}] * len(val['fields'])
             return StructV(val['struct'], names, [self.json_const(st, v, t) for v, t in zip(val['fields'], ftys)])
+        if 'array' in val and len(val['array']) >= 64:
+            tn = self.table_named_like(val['array'])
+            if tn is not None:
+                return ArrV(table=tn)
         if 'array' in val:
             ety = ty.get('ty', {'k': 'other'})
             return ArrV(items=[self.json_const(st, v, ety) for v in val['array']])
@@ -2031,6 +2066,20 @@ class Interp:
                             st.ctx.assume(cond)
                     self.models_used.add('core::ops on primitive references (%s)' % op_)
                     return self.finish_model(st, fr, t, r_)
+        # comparison traits on primitive numbers (`a < b` under a type parameter, `x.lt(&y)`)
+        for path, ga in cands:
+            mm = _re.match(r"^<&?(?:'\w+ )?(\w+) as core::cmp::(?:PartialOrd|PartialEq)(?:<&?(?:'\w+ )?\w+>)?>::(lt|le|gt|ge|eq|ne)$", path)
+            if mm and len(args) == 2 and (mm.group(1) in INT_RANGES or mm.group(1) in ('f32', 'f64')):
+                a_, b_ = args
+                for _ in range(2):
+                    a_ = self.deref(st, a_) if isinstance(a_, RefV) else a_
+                    b_ = self.deref(st, b_) if isinstance(b_, RefV) else b_
+                if isinstance(a_, Num) and isinstance(b_, Num):
+                    op_ = {'lt': 'Lt', 'le': 'Le', 'gt': 'Gt', 'ge': 'Ge', 'eq': 'Eq', 'ne': 'Ne'}[mm.group(2)]
+                    ity = mm.group(1)
+                    ty_ = {'k': 'float' if ity.startswith('f') else ('int' if ity.startswith('i') else 'uint'), 'n': ity, 's': ity}
+                    self.models_used.add('core::cmp on primitives (%s)' % op_)
+                    return self.finish_model(st, fr, t, self.binop(st, fr, op_, a_, b_, ty_, t.get('span', '')))
         # lossless primitive conversions  <T as From<U>>::from  for numeric T, U: the value is unchanged
         for path, ga in cands:
             mm = _re.match(r'^core::convert::num::<impl core::convert::From<(\w+)> for (\w+)>::from$', path)
